@@ -8,6 +8,7 @@ import Driver.ConnGater
 import Driver.Exec
 import Driver.SMT
 import Driver.RMT
+import Driver.Verify
 import Driver.Validators
 import Driver.Sync
 import Driver.Generator
@@ -27,6 +28,7 @@ def main (args : List String) : IO UInt32 := do
   | ["C16"] => Driver.Exec.main; return 0
   | ["C10"] => Driver.SMT.main; return 0
   | ["C11"] => Driver.RMT.main; return 0
+  | ["C03"] => Driver.Verify.main; return 0
   | ["C09"] => Driver.Validators.main; return 0
   | ["C19"] => Driver.Sync.main; return 0
   | ["C15"] => Driver.Generator.main; return 0
